@@ -7,10 +7,11 @@ use crate::drive;
 use crate::model::{Facts, Kind, Mode, RefOnt, KINDS};
 use crate::obs::Obs;
 use crate::space::all_dags;
-use hpo::similarity::{Builtins, Distance, GraphIc, InformationCoefficient, Jc, Lin, Mutation, Relevance, Resnik, Similarity};
+use hpo::similarity::{Builtins, CachedSimilarity, Distance, GraphIc, InformationCoefficient, Jc, Lin, Mutation, Relevance, Resnik, Similarity};
 use hpo::term::InformationContentKind;
 use hpo::Ontology;
 use serde_json::json;
+use std::collections::BTreeMap;
 
 #[derive(Clone, Copy, Debug, PartialEq, Eq)]
 pub enum Alg {
@@ -36,7 +37,12 @@ fn ick(k: Kind) -> InformationContentKind {
 
 /// Reference formulas, evaluated in f64 on the model (ICs rounded to f32 first, as the library stores them).
 pub fn reference(r: &RefOnt, alg: Alg, kind: Kind, a: u32, b: u32) -> f64 {
-    let ic = |t: u32| r.ic(t, kind) as f64;
+    reference_on(r, &|t: u32| r.ic(t, kind) as f64, alg, kind, a, b)
+}
+
+/// The same formulas on the model's ancestor sets, distances and record sets, with the information contents
+/// supplied by the caller (how exact an information content is, is C03's question - see `ics`).
+pub fn reference_on(r: &RefOnt, ic: &dyn Fn(u32) -> f64, alg: Alg, kind: Kind, a: u32, b: u32) -> f64 {
     let common_incl: Vec<u32> = r.anc_incl(a).intersection(&r.anc_incl(b)).copied().collect();
     let resnik = common_incl.iter().map(|t| ic(*t)).fold(0.0f64, f64::max);
     let lin = {
@@ -92,18 +98,60 @@ pub fn reference(r: &RefOnt, alg: Alg, kind: Kind, a: u32, b: u32) -> f64 {
     }
 }
 
+fn builtin(alg: Alg, k: InformationContentKind) -> Builtins {
+    match alg {
+        Alg::GraphIc => Builtins::GraphIc(k),
+        Alg::Resnik => Builtins::Resnik(k),
+        Alg::Lin => Builtins::Lin(k),
+        Alg::Jc => Builtins::Jc(k),
+        Alg::Relevance => Builtins::Relevance(k),
+        Alg::InformationCoefficient => Builtins::InformationCoefficient(k),
+        Alg::Distance => Builtins::Distance(k),
+        Alg::Mutation => Builtins::Mutation(k),
+    }
+}
+
 fn scores(alg: Alg, k: InformationContentKind, a: &hpo::HpoTerm, b: &hpo::HpoTerm) -> [f32; 3] {
-    let (bi, direct): (Builtins, f32) = match alg {
-        Alg::GraphIc => (Builtins::GraphIc(k), GraphIc::new(k).calculate(a, b)),
-        Alg::Resnik => (Builtins::Resnik(k), Resnik::new(k).calculate(a, b)),
-        Alg::Lin => (Builtins::Lin(k), Lin::new(k).calculate(a, b)),
-        Alg::Jc => (Builtins::Jc(k), Jc::new(k).calculate(a, b)),
-        Alg::Relevance => (Builtins::Relevance(k), Relevance::new(k).calculate(a, b)),
-        Alg::InformationCoefficient => (Builtins::InformationCoefficient(k), InformationCoefficient::new(k).calculate(a, b)),
-        Alg::Distance => (Builtins::Distance(k), Distance::new().calculate(a, b)),
-        Alg::Mutation => (Builtins::Mutation(k), Mutation::new(k).calculate(a, b)),
+    let direct: f32 = match alg {
+        Alg::GraphIc => GraphIc::new(k).calculate(a, b),
+        Alg::Resnik => Resnik::new(k).calculate(a, b),
+        Alg::Lin => Lin::new(k).calculate(a, b),
+        Alg::Jc => Jc::new(k).calculate(a, b),
+        Alg::Relevance => Relevance::new(k).calculate(a, b),
+        Alg::InformationCoefficient => InformationCoefficient::new(k).calculate(a, b),
+        Alg::Distance => Distance::new().calculate(a, b),
+        Alg::Mutation => Mutation::new(k).calculate(a, b),
     };
+    let bi = builtin(alg, k);
     [a.similarity_score(b, &bi), bi.calculate(a, b), direct]
+}
+
+/// two f32 results of the same quantity: equal up to rounding (the band every value comparison of this module
+/// uses: atol 1e-6 + rtol 1e-5); NaN only matches NaN
+fn same(x: f32, y: f32) -> bool {
+    (x.is_nan() && y.is_nan()) || x == y || ((x - y).abs() as f64) <= 1e-6 + 1e-5 * (x.abs().max(y.abs()) as f64)
+}
+
+/// The information contents the formulas are evaluated on: per kind, what the library reports for the term
+/// (`information_content().get_kind(kind)`) as long as that IS the term's information content by C03's
+/// tolerance (`obs::close32` against -ln(n/N) of the model), the model's value otherwise. The statement says
+/// "evaluated on the two terms' information contents"; how exactly those are computed is C03's business, and
+/// most scores are ratios of them: an IC error C03 accepts (1e-6 on an IC of 1e-5) must not become a 10 %
+/// score error here.
+fn ics(ont: &Ontology, r: &RefOnt) -> [BTreeMap<u32, f64>; 3] {
+    let mut out: [BTreeMap<u32, f64>; 3] = Default::default();
+    for kind in KINDS {
+        for &t in r.terms.keys() {
+            let model = r.ic(t, kind);
+            let lib = ont.hpo(t).map(|x| x.information_content().get_kind(&ick(kind)));
+            let v = match lib {
+                Some(x) if crate::obs::close32(x, model) => x,
+                _ => model,
+            };
+            out[kind.idx()].insert(t, v as f64);
+        }
+    }
+    out
 }
 
 type V = Option<(String, String, String)>;
@@ -119,18 +167,29 @@ pub fn check_ontology_strided(ont: &Ontology, r: &RefOnt, algs: &[Alg], counters
 }
 
 pub fn check_ontology_pairs(ont: &Ontology, r: &RefOnt, algs: &[Alg], counters: &mut (u64, u64), firsts: &[u32], seconds: &[u32]) -> V {
-    for &a in firsts {
-        for &b in seconds {
+    let ic = ics(ont, r);
+    // a fourth entry point: the wrapper the crate recommends for batch runs, one per (algorithm, kind), alive
+    // over all pairs of this ontology and asked twice per pair (computed, then served from its cache); to keep
+    // the hashing cheap each pair goes through the caches of one kind only (the kinds take turns)
+    let cached: Vec<Vec<CachedSimilarity<Builtins>>> = algs.iter().map(|alg| KINDS.iter().map(|k| CachedSimilarity::new(builtin(*alg, ick(*k)))).collect()).collect();
+    for (ia, &a) in firsts.iter().enumerate() {
+        for (ib, &b) in seconds.iter().enumerate() {
             let (ta, tb) = (ont.hpo(a).unwrap(), ont.hpo(b).unwrap());
-            for &alg in algs {
+            for (ai, &alg) in algs.iter().enumerate() {
                 for kind in KINDS {
                     counters.0 += 1;
                     let s = scores(alg, ick(kind), &ta, &tb);
                     let site = format!("{alg:?}({})", kind.name());
                     // the three entry points run the same algorithm: equal up to rounding (NaN-ness must agree too)
-                    let agree = |x: f32, y: f32| (x.is_nan() && y.is_nan()) || x == y || (x - y).abs() <= 1e-6 * x.abs().max(y.abs()).max(1.0);
-                    if !agree(s[0], s[1]) || !agree(s[1], s[2]) {
+                    if !same(s[0], s[1]) || !same(s[1], s[2]) {
                         return Some((site, "similarity_score, Builtins and the concrete struct disagree".into(), format!("({a},{b}): {s:?}")));
+                    }
+                    if (ia + ib) % 3 == kind.idx() {
+                        let c = &cached[ai][kind.idx()];
+                        let (c1, c2) = (c.calculate(&ta, &tb), c.calculate(&ta, &tb));
+                        if !same(c1, s[1]) || !same(c2, s[1]) {
+                            return Some((site, "CachedSimilarity returns another score than the similarity it wraps".into(), format!("({a},{b}): first call {c1}, second call {c2}, Builtins {}", s[1])));
+                        }
                     }
                     let v = s[0];
                     if v.is_nan() {
@@ -139,19 +198,27 @@ pub fn check_ontology_pairs(ont: &Ontology, r: &RefOnt, algs: &[Alg], counters: 
                     if !v.is_finite() || v < 0.0 {
                         return Some((site, "score is negative or not finite".into(), format!("({a},{b}): {v}")));
                     }
+                    // "does not depend on argument order": for an f32 result that is up to rounding (the two orders
+                    // may add the same information contents in another order)
                     let back = scores(alg, ick(kind), &tb, &ta)[0];
-                    if (v - back).abs() > 1e-6 * v.abs().max(1.0) {
+                    if !same(v, back) {
                         return Some((site, "score depends on argument order".into(), format!("({a},{b}) = {v}, ({b},{a}) = {back}")));
                     }
                     if a == b && matches!(alg, Alg::GraphIc | Alg::Jc | Alg::Distance | Alg::Mutation) && v != 1.0 {
                         return Some((site, "self-similarity is not 1".into(), format!("({a},{a}) = {v}")));
                     }
-                    let want = reference(r, alg, kind, a, b);
+                    let icf = |t: u32| ic[kind.idx()][&t];
+                    let want = reference_on(r, &icf, alg, kind, a, b);
                     if want != 0.0 && want != 1.0 {
                         counters.1 += 1;
                     }
-                    if (v as f64 - want).abs() > 1e-6 + 1e-5 * want.abs() {
-                        return Some((site, "score differs from the documented formula".into(), format!("({a},{b}): observed {v} expected {want}")));
+                    let near = |w: f64| (v as f64 - w).abs() <= 1e-6 + 1e-5 * w.abs();
+                    // Jiang-Conrath of two distinct terms of which exactly one has information content 0: the library
+                    // answers 0, the cited formula 1/(ic(a)+ic(b)-2*resnik+1); this is no zero-denominator guard and
+                    // no documented special case, so both are accepted (see assumptions)
+                    let alt = if alg == Alg::Jc && a != b && (icf(a) == 0.0) != (icf(b) == 0.0) { Some(1.0 / (icf(a) + icf(b) - 2.0 * reference_on(r, &icf, Alg::Resnik, kind, a, b) + 1.0)) } else { None };
+                    if !near(want) && !alt.is_some_and(near) {
+                        return Some((site, "score differs from the documented formula".into(), format!("({a},{b}): observed {v} expected {want}{}", alt.map_or(String::new(), |x| format!(" (or {x})")))));
                     }
                 }
             }
@@ -215,10 +282,14 @@ fn calibrate(ctx: &mut Ctx) {
 }
 
 pub fn run(ctx: &mut Ctx) {
-    ctx.rule = "case = (labelled DAG, annotation pattern) with all ordered term pairs x 8 algorithms x 3 kinds x 3 entry points; patterns: every subset S (g1<-S, g2<-~S, omim<-rot1 S, orpha<-rot2 S, bare records) and no annotations at all; distinct by construction; non-trivial counts score evaluations whose reference value is neither 0 nor 1".into();
+    ctx.rule = "case = (labelled DAG, annotation pattern) with all ordered term pairs x 8 algorithms x 3 kinds x 4 entry points (similarity_score, Builtins, concrete struct, CachedSimilarity asked twice); patterns: every subset S (g1<-S, g2<-~S, omim<-rot1 S, orpha<-rot2 S, bare records) and no annotations at all; distinct by construction; non-trivial counts score evaluations whose reference value is neither 0 nor 1".into();
     ctx.assumptions = vec![
         "reference formulas are transcribed from the struct documentation / cited papers and calibrated on the GraphIc literal pinned in the crate's documentation".into(),
-        "values compared with atol 1e-6 + rtol 1e-5; NaN, sign, finiteness, self-similarity compared strictly; symmetry within 1e-6 relative".into(),
+        "the formulas are evaluated on the information contents the library reports for the terms (as long as C03's tolerance accepts them as such, the model's -ln(n/N) otherwise): their exactness is C03's question".into(),
+        "values compared with atol 1e-6 + rtol 1e-5, the entry points among each other and the two argument orders (symmetry) within the same band (f32 sums taken in another order); NaN, sign, finiteness, self-similarity compared strictly".into(),
+        "Jiang-Conrath of two distinct terms of which exactly one has information content 0: 0 (what the library answers; not documented) and the value of the cited formula are both accepted".into(),
+        "Builtins::new: only the 13 lower-case names, \"does-not-exist\" and \"\" have a fixed answer; other spellings are refuse-or-consistent".into(),
+        "CachedSimilarity<Builtins> is driven as a fourth entry point (one cache per algorithm, kind and ontology; every pair goes through the caches of one kind, the kinds taking turns)".into(),
     ];
     calibrate(ctx);
     let thorough = ctx.tier.thorough();
@@ -375,46 +446,110 @@ pub fn run(ctx: &mut Ctx) {
             ctx.sample(|| json!({"dag": d.describe(), "ids": ids}));
         }
     }
-    // ---- the name dispatch: every documented name and alias, in three spellings, for the three kinds, gives
-    // the variant of that name (scores equal to the literal variant on a 4-term ontology); other names are refused
+    // ---- the name dispatch: each of the 13 lower-case names gives the variant of that name for the requested
+    // kind (scores equal to the literal variant on a 4-term ontology) and "does-not-exist" / "" are refused. The
+    // property does not speak about any other spelling, so for those the oracle is refuse-or-consistent: the
+    // UPPER and mIxEd spellings of a name are refused or select what the lower-case name selects; near-names are
+    // refused or score like one of the eight built-ins of the requested kind on all 16 pairs
     {
-        ctx.space("names/Builtins::new", "13 documented names and aliases x {lower, UPPER, Mixed} x 3 kinds: Builtins::new(name, kind) scores like the literal variant on all 16 pairs of a 4-term ontology; 9 non-names are refused");
+        ctx.space("names/Builtins::new", "13 lower-case names and aliases x 3 kinds: Builtins::new(name, kind) scores like the literal variant on all 16 pairs of a 4-term ontology; their UPPER and Mixed spellings: refused, or the same variant; \"does-not-exist\" and \"\" are refused; 7 near-names (blank, trailing blank, prefix, misspelling, digit appended): refused, or one of the 8 built-ins of the requested kind");
         if ctx.take() {
             ctx.state();
             ctx.nontrivial();
             let names: [(&str, Alg); 13] = [("graphic", Alg::GraphIc), ("resnik", Alg::Resnik), ("distance", Alg::Distance), ("dist", Alg::Distance), ("informationcoefficient", Alg::InformationCoefficient), ("ic", Alg::InformationCoefficient), ("jc", Alg::Jc), ("jc2", Alg::Jc), ("lin", Alg::Lin), ("relevance", Alg::Relevance), ("rel", Alg::Relevance), ("mutation", Alg::Mutation), ("mut", Alg::Mutation)];
-            let dag = &all_dags(4)[400];
-            let base = Facts::from_dag(dag, &POOL);
-            let ids: Vec<u32> = base.terms.iter().map(|t| t.id).collect();
-            let f = Facts { anns: AnnGroups::new(0b0110, &ids).interleaved(), ..base };
+            // the ontology on which names are told apart: the first 4-term DAG (from number 400 on) with a record
+            // layout per kind on which the reference formulas give 8 x 3 pairwise different score tables (Distance: one
+            // table for all kinds) - on a sparse graph several built-ins coincide and a wrong variant would pass
+            let dags = all_dags(4);
+            let mk = |di: usize| -> (Facts, Vec<u32>) {
+                let base = Facts::from_dag(&dags[di], &POOL);
+                let ids: Vec<u32> = base.terms.iter().map(|t| t.id).collect();
+                // per kind another layout of records over the terms (node positions), so that no two kinds give the
+                // same table for any algorithm: genes: one record per term and one per pair of neighbours; OMIM: two
+                // single records and pairs two apart; ORPHA: two records on the first term and runs of three
+                let layouts: [&[&[usize]]; 3] = [&[&[0], &[1], &[2], &[3], &[0, 1], &[1, 2], &[2, 3], &[3, 0]], &[&[0], &[1], &[0, 2], &[1, 3], &[2, 0]], &[&[0], &[0], &[0, 1, 2], &[1, 2, 3], &[3]]];
+                let mut anns = vec![];
+                for (ki, kind) in KINDS.iter().enumerate() {
+                    for (ri, terms) in layouts[ki].iter().enumerate() {
+                        for t in terms.iter() {
+                            anns.push(Facts::ann(*kind, 100 + ri as u32, &format!("R{ri}"), Some(ids[*t])));
+                        }
+                    }
+                    for b in 0..=ki {
+                        anns.push(Facts::ann(*kind, 900 + b as u32, "bare", None));
+                    }
+                }
+                (Facts { anns, ..base }, ids)
+            };
+            let distinct = |f: &Facts, ids: &[u32]| -> bool {
+                let r = RefOnt::derive(f);
+                let mut tables: Vec<Vec<f64>> = vec![];
+                for alg in ALGS {
+                    for kind in KINDS {
+                        if alg == Alg::Distance && kind != Kind::Gene {
+                            continue;
+                        }
+                        tables.push(ids.iter().flat_map(|a| ids.iter().map(|b| reference(&r, alg, kind, *a, *b)).collect::<Vec<f64>>()).collect());
+                    }
+                }
+                (0..tables.len()).all(|i| (0..i).all(|j| tables[i].iter().zip(&tables[j]).any(|(x, y)| (x - y).abs() > 1e-3)))
+            };
+            let chosen = (400..dags.len()).chain(0..400).find(|di| {
+                let (f, ids) = mk(*di);
+                distinct(&f, &ids)
+            });
+            if chosen.is_none() {
+                ctx.note("names/Builtins::new: no 4-term graph separates all built-ins; graph 400 is used");
+            }
+            let (f, ids) = mk(chosen.unwrap_or(400));
             match drive::build(&f, Mode::Minimal) {
                 Err(e) => ctx.violation("Builder", "[builder] construction fails on valid facts", json!({"case": f.to_json(), "observed": e})),
                 Ok(ont) => {
+                    // first pair on which `b` scores differently from the literal variant of `alg`
+                    let differs = |b: &Builtins, alg: Alg, k: InformationContentKind| -> Option<String> {
+                        for &x in &ids {
+                            for &y in &ids {
+                                let (tx, ty) = (ont.hpo(x).unwrap(), ont.hpo(y).unwrap());
+                                let got = b.calculate(&tx, &ty);
+                                let want = scores(alg, k, &tx, &ty)[2];
+                                if !same(got, want) {
+                                    return Some(format!("on ({x},{y}) = {got}, {alg:?} gives {want}"));
+                                }
+                            }
+                        }
+                        None
+                    };
                     let res = guard(|| -> V {
                         for (name, alg) in names {
                             let mixed: String = name.chars().enumerate().map(|(i, c)| if i % 2 == 0 { c.to_ascii_uppercase() } else { c }).collect();
-                            for spelled in [name.to_string(), name.to_uppercase(), mixed] {
+                            for (si, spelled) in [name.to_string(), name.to_uppercase(), mixed].into_iter().enumerate() {
                                 for kind in KINDS {
                                     let k = ick(kind);
-                                    let Ok(b) = Builtins::new(&spelled, k) else {
-                                        return Some(("Builtins::new".into(), "refuses a documented name".into(), format!("{spelled:?}")));
+                                    let b = match Builtins::new(&spelled, k) {
+                                        Ok(b) => b,
+                                        Err(_) if si == 0 => return Some(("Builtins::new".into(), "refuses a documented name".into(), format!("{spelled:?}"))),
+                                        // another spelling than the lower-case one may be refused
+                                        Err(_) => continue,
                                     };
-                                    for &x in &ids {
-                                        for &y in &ids {
-                                            let (tx, ty) = (ont.hpo(x).unwrap(), ont.hpo(y).unwrap());
-                                            let got = b.calculate(&tx, &ty);
-                                            let want = scores(alg, k, &tx, &ty)[2];
-                                            if !(got == want || (got.is_nan() && want.is_nan()) || (got - want).abs() <= 1e-6 * want.abs().max(1.0)) {
-                                                return Some(("Builtins::new".into(), "the name selects another algorithm or kind".into(), format!("Builtins::new({spelled:?}, {}) on ({x},{y}) = {got}, {alg:?} gives {want}", kind.name())));
-                                            }
-                                        }
+                                    if let Some(d) = differs(&b, alg, k) {
+                                        return Some(("Builtins::new".into(), "the name selects another algorithm or kind".into(), format!("Builtins::new({spelled:?}, {}) {d}", kind.name())));
                                     }
                                 }
                             }
                         }
-                        for bad in ["", " ", "graph", "graphic ", "resnick", "jc3", "ic2", "distance1", "does-not-exist"] {
+                        for bad in ["", "does-not-exist"] {
                             if Builtins::new(bad, InformationContentKind::Omim).is_ok() {
                                 return Some(("Builtins::new".into(), "accepts a name that is not documented".into(), format!("{bad:?}")));
+                            }
+                        }
+                        for near in [" ", "graph", "graphic ", "resnick", "jc3", "ic2", "distance1"] {
+                            for kind in KINDS {
+                                let k = ick(kind);
+                                if let Ok(b) = Builtins::new(near, k) {
+                                    if ALGS.iter().all(|alg| differs(&b, *alg, k).is_some()) {
+                                        return Some(("Builtins::new".into(), "an accepted name scores like none of the built-in similarities of the requested kind".into(), format!("Builtins::new({near:?}, {}) = {b:?}", kind.name())));
+                                    }
+                                }
                             }
                         }
                         None
@@ -428,7 +563,7 @@ pub fn run(ctx: &mut Ctx) {
                     }
                 }
             }
-            ctx.sample(|| json!({"names": names.iter().map(|n| n.0).collect::<Vec<_>>()}));
+            ctx.sample(|| json!({"names": names.iter().map(|n| n.0).collect::<Vec<_>>(), "graph": chosen.map(|di| dags[di].describe())}));
         }
     }
     // ---- properly overlapping record sets and as many information-content levels as terms: record i on node i,
@@ -503,23 +638,31 @@ pub fn run(ctx: &mut Ctx) {
             ctx.sample(|| json!({"dag": d.describe(), "ids": ids}));
         }
     }
-    // ---- very many records: information contents far below 1e-3 (a term carrying all but one of 30 000 genes)
-    // are still information contents - no tolerance may turn them into zero
+    // ---- very many records: information contents far below 1e-3 are still information contents - no tolerance
+    // may turn them into zero. 65 535 genes is the largest number of records the crate documents to accept: the
+    // term carrying all but one of them has the smallest non-zero information content it can produce (1.5e-5),
+    // the term below it (all but two) the next one (3.1e-5) - two distinct tiny values whose ratios are scores.
+    // The second case has more records than that: whether such an ontology can be built is C03's question
+    // (refusing is accepted there); if one is handed out, every score on it is held to the same formulas
+    // (|records(a) u records(b)| > 65 535 for Mutation).
     {
-        ctx.space("builder/many-records", "6 terms (1; 2, 6 below 1; 3, 4 below 2; 5 below 3 and 4) with 30 000 genes and 20 000 OMIM diseases, all but one of each on HP:2 (IC about 3e-5), thousands on 3, 4, 5; all 36 ordered pairs x 8 algorithms x 3 kinds");
-        if ctx.take() {
+        ctx.space("builder/many-records", "6 terms (1; 2, 6 below 1; 3, 4 below 2; 5 below 3 and 4) with (65 535 | 70 000) genes and 20 000 OMIM diseases: all genes but one on HP:2 (IC 1.5e-5 for 65 535), all but two on HP:3 (IC 3.1e-5), 20 000 on 4, every 300th on 5, the last one on 6; all OMIM diseases but one on 2, 5 000 on 5; all 36 ordered pairs x 8 algorithms x 3 kinds (70 000 genes: only if the Builder hands out an ontology)");
+        for ng in [65_535u32, 70_000] {
+            if !ctx.take() {
+                continue;
+            }
             ctx.state();
             let mut f = Facts::default();
             for t in 1..=6u32 {
                 f.terms.push(Facts::term(t, &format!("T{t}")));
             }
             f.edges = vec![(2, 1), (6, 1), (3, 2), (4, 2), (5, 3), (5, 4)];
-            let ng = 30_000u32;
             for g in 0..ng - 1 {
                 f.anns.push(Facts::ann(Kind::Gene, g, "G", Some(2)));
-                if g < 10_000 {
+                if g < ng - 2 {
                     f.anns.push(Facts::ann(Kind::Gene, g, "G", Some(3)));
-                } else if g < 20_000 {
+                }
+                if g < 20_000 {
                     f.anns.push(Facts::ann(Kind::Gene, g, "G", Some(4)));
                 }
                 if g % 300 == 0 {
@@ -539,14 +682,20 @@ pub fn run(ctx: &mut Ctx) {
             f.anns.push(Facts::ann(Kind::Orpha, 2, "O2", Some(6)));
             let r = RefOnt::derive(&f);
             ctx.transitions(f.n_steps() + 36 * 24);
+            let layout = format!("{ng} genes / {nd} OMIM diseases, all but one on HP:2, all genes but two on HP:3");
             match drive::build(&f, Mode::Minimal) {
+                // more records than the documented limit: refused (today's behaviour) or computed - C03's question
+                Err(_) if ng > 65_535 => {
+                    ctx.exec();
+                    ctx.bump("builds_beyond_65535_records_refused", 1);
+                }
                 Err(e) => ctx.violation("Builder", "[builder] construction fails on valid facts", json!({"genes": ng, "omim": nd, "observed": e})),
                 Ok(ont) => {
                     let mut counters = (0u64, 0u64);
                     match guard(|| check_ontology(&ont, &r, &ALGS, &mut counters)) {
                         Ok(None) => {}
-                        Ok(Some((site, sig, det))) => ctx.violation(&site, &format!("[many records] {sig}"), json!({"layout": "30 000 genes / 20 000 OMIM diseases, all but one on HP:2", "difference": det})),
-                        Err(p) => ctx.violation("Similarity::calculate", "[many records] panics", json!({"observed": p})),
+                        Ok(Some((site, sig, det))) => ctx.violation(&site, &format!("[many records] {sig}"), json!({"layout": layout, "difference": det})),
+                        Err(p) => ctx.violation("Similarity::calculate", "[many records] panics", json!({"layout": layout, "observed": p})),
                     }
                     ctx.execs(counters.0);
                     ctx.validateds(counters.0);
@@ -554,6 +703,8 @@ pub fn run(ctx: &mut Ctx) {
                 }
             }
             ctx.sample(|| json!({"genes": ng, "omim": nd, "terms": 6}));
+            // the record tables of these two cases are large: hand the memory back before the next ontologies are built
+            crate::ctx::trim_heap();
         }
     }
     // ---- sequences of ontologies built one after the other at the same address (scores must not depend on
